@@ -181,3 +181,78 @@ Section FieldSet.
       + cbn [existsb orb]. destruct (exn_eqb e TypeError); reflexivity.
   Qed.
 End FieldSet.
+
+(* ------------------------------------------------------------------ the whole intake of an Array, on a sample
+   (kernel-evaluated regression of the composition Array.__set__ -> extract_field_value -> _ListStruct(...) ->
+   Field.__set__; the universally quantified statements are the theorems above and Struct/AliasSrcProofs.v) *)
+
+Definition ex_E : aenv :=
+  {| e_wattrs := fun _ => None; e_iattr := fun _ _ => None;
+     e_defaults := fun n => if pystr_eqb n (s2p "uniqueness_features_enabled") then Some (PBool false) else Some (PBool true) |}.
+Definition ex_CK : checks := fun _ _ _ => None.
+(* the item field "stores a fresh 1-tuple around the element": makes the rebuild visible *)
+Definition ex_recf : nat -> heap -> child -> res (heap * child) :=
+  fun _ h c => Ok (alloc h {| o_kind := KTuple; o_kids := [(([] : pystr), c)] |}).
+Definition ex_rec : heap -> child -> res (heap * child) := fun h c => Raise Unmodelled.
+Definition ex_h : heap :=
+  [ {| o_kind := KList; o_kids := [(([] : pystr), CAtom (PNum (NInt 7))); (([] : pystr), CRef 1)] |};
+    {| o_kind := KList; o_kids := [] |} ].
+Definition ex_field (items : aval) : aval := fself false false (s2p "a") items anone anone.
+Definition ex_sup := Src_Field_set ex_E ex_CK ex_recf ex_rec (fun _ _ _ => mraise Unmodelled).
+
+(* typed Array: the instance holds a NEW wrapper (location 4) over the REBUILT elements (2, 3); the caller's list 0 is
+   neither stored nor changed *)
+Example array_intake_typed :
+  Src_Array_set ex_E ex_CK ex_recf ex_rec ex_sup (ex_field (item_field 0 (s2p "x"))) (AObj []) (AV (CRef 0)) ex_h =
+  Ok (ex_h ++ [ {| o_kind := KTuple; o_kids := [(([] : pystr), CAtom (PNum (NInt 7)))] |};
+                {| o_kind := KTuple; o_kids := [(([] : pystr), CRef 1)] |};
+                {| o_kind := KWList; o_kids := [(([] : pystr), CRef 2); (([] : pystr), CRef 3)] |} ],
+      AObj [(s2p "a", AV (CRef 4))]).
+Proof. vm_compute. reflexivity. Qed.
+
+(* untyped Array (items = None): a NEW wrapper (location 2) holding the caller's elements themselves (CRef 1 is shared:
+   the model's TArray None retains the elements, not the list) *)
+Example array_intake_untyped :
+  Src_Array_set ex_E ex_CK ex_recf ex_rec ex_sup (ex_field anone) (AObj []) (AV (CRef 0)) ex_h =
+  Ok (ex_h ++ [ {| o_kind := KWList; o_kids := [(([] : pystr), CAtom (PNum (NInt 7))); (([] : pystr), CRef 1)] |} ],
+      AObj [(s2p "a", AV (CRef 2))]).
+Proof. vm_compute. reflexivity. Qed.
+
+Definition ex_hs : heap :=
+  [ {| o_kind := KSet; o_kids := [(([] : pystr), CAtom (PNum (NInt 7))); (([] : pystr), CAtom (PNum (NInt 8)))] |};
+    {| o_kind := KDict; o_kids := [(([] : pystr), CAtom (PStr (s2p "k"))); (([] : pystr), CRef 0)] |} ].
+
+(* typed Set: a NEW set (location 4) of the rebuilt elements is stored *)
+Example set_intake_typed :
+  Src_Set_set ex_E ex_CK ex_recf ex_rec ex_sup (ex_field (item_field 0 (s2p "x"))) (AObj []) (AV (CRef 0)) ex_hs =
+  Ok (ex_hs ++ [ {| o_kind := KTuple; o_kids := [(([] : pystr), CAtom (PNum (NInt 7)))] |};
+                 {| o_kind := KTuple; o_kids := [(([] : pystr), CAtom (PNum (NInt 8)))] |};
+                 {| o_kind := KSet; o_kids := [(([] : pystr), CRef 2); (([] : pystr), CRef 3)] |} ],
+      AObj [(s2p "a", AV (CRef 4))]).
+Proof. vm_compute. reflexivity. Qed.
+
+(* untyped Set: the CALLER'S OWN set (location 0) is stored, the heap is unchanged -- the sharing the hand model
+   predicts (AliasIntake.pos, TSet false: "the caller's set itself is stored") *)
+Example set_intake_untyped_retains :
+  Src_Set_set ex_E ex_CK ex_recf ex_rec ex_sup (ex_field anone) (AObj []) (AV (CRef 0)) ex_hs =
+  Ok (ex_hs, AObj [(s2p "a", AV (CRef 0))]).
+Proof. vm_compute. reflexivity. Qed.
+
+(* typed Map: a NEW _DictStruct (location 4) over the rebuilt key / value *)
+Example map_intake_typed :
+  Src_Map_set ex_E ex_CK ex_recf ex_rec ex_sup
+     (ex_field (AList [item_field 0 (s2p "k"); item_field 1 (s2p "v")])) (AObj []) (AV (CRef 1)) ex_hs =
+  Ok (ex_hs ++ [ {| o_kind := KTuple; o_kids := [(([] : pystr), CAtom (PStr (s2p "k")))] |};
+                 {| o_kind := KTuple; o_kids := [(([] : pystr), CRef 0)] |};
+                 {| o_kind := KWDict; o_kids := [(([] : pystr), CRef 2); (([] : pystr), CRef 3)] |} ],
+      AObj [(s2p "a", AV (CRef 4))]).
+Proof. vm_compute. reflexivity. Qed.
+
+Print Assumptions src_extract_field_value.
+Print Assumptions src_field_set_plain.
+Print Assumptions src_field_set_immutable.
+Print Assumptions array_intake_typed.
+Print Assumptions array_intake_untyped.
+Print Assumptions set_intake_typed.
+Print Assumptions set_intake_untyped_retains.
+Print Assumptions map_intake_typed.
